@@ -23,7 +23,8 @@ func checkC02() *rtCheck {
 			"an optional empty string outside the body may arrive as empty or absent"},
 		Profiles: deliveryProfiles, Specs: [2]int{32, 500}, PerMethod: [2]int{24, 120},
 		MkCases: cases.Delivery, Judge: oracle.C02, Floor: [2]int{200, 5000},
-		NonTrivial: func(ex *rt.Exchange) bool { return ex.StubIn != nil && !ex.Case.NoPay },
+		NonTrivial:  func(ex *rt.Exchange) bool { return ex.StubIn != nil && !ex.Case.NoPay },
+		StreamSpecs: [2]int{4, 48}, StreamPerMethod: [2]int{16, 64},
 	}
 }
 
@@ -35,7 +36,8 @@ func checkC03() *rtCheck {
 			"results that are result types with views are judged by C08, C03 only checks their status"},
 		Profiles: deliveryProfiles, Specs: [2]int{32, 500}, PerMethod: [2]int{24, 120},
 		MkCases: cases.Delivery, Judge: oracle.C03, Floor: [2]int{200, 5000},
-		NonTrivial: func(ex *rt.Exchange) bool { return ex.ClientOut != nil && ex.ClientOut.Err == nil },
+		NonTrivial:  func(ex *rt.Exchange) bool { return ex.ClientOut != nil && ex.ClientOut.Err == nil },
+		StreamSpecs: [2]int{4, 48}, StreamPerMethod: [2]int{16, 64},
 	}
 }
 
@@ -108,6 +110,7 @@ func checkC07() *rtCheck {
 		Judge:      func(sp *spec.Spec, ex *rt.Exchange) *oracle.Verdict { return &oracle.Verdict{Inconclusive: "n/a"} },
 		Floor:      [2]int{10, 150},
 		AllowFiles: true,
+		Streams:    true,
 		PostDesign: func(run *vc.Run, d *pipeline.Design, setup map[string]any) {
 			mounted := map[string][][2]string{}
 			if b, err := json.Marshal(setup["mounted"]); err == nil {
